@@ -256,6 +256,26 @@ class Lang(R):
         self.dfa = dfa
 
 
+def shortest_length(r: R) -> T.Optional[int]:
+    """Length of a shortest word of L(r) (breadth-first over the DFA); None if the language is empty."""
+    d = to_dfa(r)
+    seen = {0}
+    frontier = [0]
+    depth = 0
+    while frontier:
+        if any(q in d.accepting for q in frontier):
+            return depth
+        nxt = []
+        for q in frontier:
+            for _ch, q2 in d.trans[q].items():
+                if q2 >= 0 and q2 not in seen:
+                    seen.add(q2)
+                    nxt.append(q2)
+        frontier = nxt
+        depth += 1
+    return None
+
+
 def nonempty(r: R) -> R:
     """L(r) without the empty word."""
     d = to_dfa(r)
